@@ -15,11 +15,47 @@ var Registry = map[string]*Harness{}
 
 func register(h *Harness) { Registry[h.Name] = h }
 
+// JobOpts holds the engine-level options of the current job ("@k=v,k=v@rest").
+var JobOpts = map[string]string{}
+
+// stripOpts splits the option prefix off a job string.
+func stripOpts(job string) string {
+	JobOpts = map[string]string{}
+	if len(job) > 0 && job[0] == '@' {
+		for k := 1; k < len(job); k++ {
+			if job[k] == '@' {
+				for _, kv := range splitComma(job[1:k]) {
+					for e := 0; e < len(kv); e++ {
+						if kv[e] == '=' {
+							JobOpts[kv[:e]] = kv[e+1:]
+							break
+						}
+					}
+				}
+				return job[k+1:]
+			}
+		}
+	}
+	return job
+}
+
+func splitComma(s string) []string {
+	var out []string
+	start := 0
+	for i := 0; i <= len(s); i++ {
+		if i == len(s) || s[i] == ',' {
+			out = append(out, s[start:i])
+			start = i + 1
+		}
+	}
+	return out
+}
+
 // RunHarness is the engine's entry point.
 func RunHarness(name, job string) {
 	h := Registry[name]
 	if h == nil {
 		panic("unknown harness " + name)
 	}
-	h.Run(job)
+	h.Run(stripOpts(job))
 }
